@@ -14,6 +14,7 @@ VALUES = {"method": "standard", "information": "knn", "alpha_forward": 0.05, "al
           "bandwidth": "silverman", "k_means": 5, "n_shuffles": 200, "max_lag": 3}
 DOC_COLS = {"method": "Method", "information": "Information", "alpha_forward": "Alpha_Forward", "alpha_backward": "Alpha_Backward",
             "metric": "Metric", "bandwidth": "Bandwidth", "k_means": "K_Means", "n_shuffles": "N_Shuffles", "max_lag": "Max_Lag"}
+FALSY = {"method": "", "information": "", "alpha_forward": 0.0, "alpha_backward": 0.0, "metric": "", "bandwidth": 0.0, "k_means": 0, "n_shuffles": 0, "max_lag": 0}
 BASE = ["Source", "Sink", "Lag", "CMI", "P_Value"]
 LABELS = [0, 1, 2, "X0", "X1", "b", ("t", 1), ("t", 2), 10, "10", 3.5]
 
@@ -127,7 +128,8 @@ def check(run, driver):
         edges = list(G.edges(data=True))
         G0 = G.copy()
         for sub in (subsets if gi % 4 == 0 or thorough else subsets[:6] + subsets[gi % len(subsets)::9]):
-            kw = {p: VALUES[p] for p in sub}
+            vals = VALUES if (gi + len(sub)) % 3 else FALSY
+            kw = {p: vals[p] for p in sub}
             df = U.network_to_dataframe(G, **kw)
             case = {"nodes": [repr(n) for n in nodes], "edges": [(pos[a], pos[b], d) for a, b, d in edges], "metadata": kw}
             run.case("export", [case["nodes"], case["edges"], sorted(sub)], len(edges) >= 2, sample=case if len(edges) >= 2 else None)
@@ -141,13 +143,13 @@ def check(run, driver):
                 continue
             for i, (a, b, d) in enumerate(edges):
                 row = df.iloc[i]
-                want = [a, b, d.get("lag", 0), d.get("cmi"), d.get("p_value")] + [VALUES[p] for p in PARAMS if p in sub]
+                want = [a, b, d.get("lag", 0), d.get("cmi"), d.get("p_value")] + [vals[p] for p in PARAMS if p in sub]
                 if not all(cell_eq(x, y) for x, y in zip(list(row), want)):
                     run.prop_fail("row does not carry the edge's endpoints/attributes (in edge order) and constant metadata", case, {"clause": "rows"}, {"row": i, "got": list(row), "want": want})
                     break
             meta.append(("frame", case, df, nodes))
             reqs.append({"op": "export_frame", "param_cols": [list(p) for p in param_cols], "order": order,
-                         "supplied": [[p, dcell(VALUES[p])] for p in sub],
+                         "supplied": [[p, dcell(vals[p])] for p in sub],
                          "edges": [{"u": {"id": pos[a], "str": str(a)}, "v": {"id": pos[b], "str": str(b)},
                                     **({"lag": int(d["lag"])} if "lag" in d else {}), **({"cmi": num(d["cmi"])} if "cmi" in d else {}),
                                     **({"p": num(d["p_value"])} if "p_value" in d else {})} for a, b, d in edges]})
